@@ -102,7 +102,7 @@ def chunks(lst, n):
 
 def run_impl(scenarios, harness, jobs=16, per_timeout=20):
     env = dict(os.environ)
-    env["ASAN_OPTIONS"] = "detect_leaks=0:abort_on_error=0:symbolize=0:allocator_may_return_null=1"
+    env["ASAN_OPTIONS"] = "detect_leaks=0:abort_on_error=0:symbolize=0:allocator_may_return_null=1:malloc_fill_byte=190:max_malloc_fill_size=1048576"
     env["UBSAN_OPTIONS"] = "print_stacktrace=0"
     res = {}
     parts = chunks(scenarios, jobs)
